@@ -98,6 +98,7 @@ var (
 	u4  = plain("bdfh", "b", "d", "f", "h")
 	u2  = plain("bd", "b", "d")
 	us  = composite("skip", []string{"", "q"}, []string{"", "s", "u"})
+	us3 = composite("skip3", []string{"", "p", "q"}, []string{"", "s", "u"})
 	ul  = func() *universe {
 		var ks []string
 		for i := 0; i < 72; i++ {
@@ -681,7 +682,7 @@ func run(c *lib.Ctx) {
 	// VERIF_C09_GROUPS=G5,G6 restricts a (development) run to some groups
 	want := func(g string) bool {
 		sel := os.Getenv("VERIF_C09_GROUPS")
-		if sel != "" && !strings.Contains(sel, g) {
+		if sel != "" && !strings.Contains(","+sel+",", ","+g+",") {
 			return false
 		}
 		if c.Expired() {
@@ -702,16 +703,9 @@ func run(c *lib.Ctx) {
 	}()
 
 	// ---- G1 layering: every life line of every key, N/P/R strings
-	if want("G1") {
-		u := lib.Pick(c, u3, u4)
+	layering := func(u *universe, strs [][]string, rs []rangeSpec) {
 		lines := lifeLines(3)
-		strs := append(opStrings(np, lib.Pick(c, 4, 5), nil), opStrings([]string{"N", "P", "R"}, lib.Pick(c, 3, 4), hasR)...)
-		rs := rangesFor(u, false)
-		if quick {
-			rs = rs[:2]
-		}
 		c.Set("G1_life_lines_per_key", len(lines))
-		c.Set("G1_op_strings", len(strs))
 		nk := len(u.keys)
 		var firsts [][]string
 		cross(lines, 2, func(sel []string) { firsts = append(firsts, sel) })
@@ -727,28 +721,41 @@ func run(c *lib.Ctx) {
 			})
 		})
 	}
+	if want("G1") {
+		strs := append(opStrings(np, lib.Pick(c, 4, 5), nil), opStrings([]string{"N", "P", "R"}, lib.Pick(c, 3, 4), hasR)...)
+		c.Set("G1_op_strings", len(strs))
+		layering(u3, strs, rangesFor(u3, false)[:lib.Pick(c, 2, 4)])
+	}
 	// ---- G2 modifications of the own layer between steps (+ new overlay object)
 	if want("G2") {
 		u := u3e
-		lines := reducedLines(3)
-		alpha := []string{"N", "P", "t0", "t1", "t2", "u0", "u1", "u2", "I", "R"}
 		isMod := func(t string) bool { return t[0] == 't' || t[0] == 'u' || t[0] == 'I' }
-		strs := opStrings(alpha, lib.Pick(c, 4, 5), func(s []string) bool {
+		must := func(s []string) bool {
 			return contains(s, isMod) && contains(s, func(t string) bool { return t == "N" || t == "P" })
-		})
-		c.Set("G2_op_strings", len(strs))
-		rs := rangesFor(u, false)
-		if quick {
-			lines = lines[:5]
-			rs = rs[:2]
 		}
-		var stacks [][]string
-		cross(lines, 3, func(sel []string) { stacks = append(stacks, sel) })
-		c.Par(len(stacks), func(i int) {
-			for _, rg := range rs {
-				r.sweep(caseSpec{Group: "modify", Universe: u.Name, Lines: stacks[i], WithMut: true, Rng: rg}, strs)
-			}
-		})
+		type part struct {
+			alpha []string
+			n     int
+			lines []string
+			rs    []rangeSpec
+		}
+		full := []string{"N", "P", "t0", "t1", "t2", "u0", "u1", "u2", "I", "R"}
+		parts := []part{{full, 4, reducedLines(3)[:5], rangesFor(u, false)[:2]}}
+		if !quick {
+			parts = []part{{full, 4, reducedLines(3), rangesFor(u, false)[:3]},
+				{[]string{"N", "P", "t0", "t1", "t2", "u2", "I"}, 5, reducedLines(3)[:7], rangesFor(u, false)[:3]}}
+		}
+		for pi, pt := range parts {
+			strs := opStrings(pt.alpha, pt.n, must)
+			c.Set(fmt.Sprintf("G2_part%d_op_strings", pi), len(strs))
+			var stacks [][]string
+			cross(pt.lines, 3, func(sel []string) { stacks = append(stacks, sel) })
+			c.Par(len(stacks), func(i int) {
+				for _, rg := range pt.rs {
+					r.sweep(caseSpec{Group: "modify", Universe: u.Name, Lines: stacks[i], WithMut: true, Rng: rg}, strs)
+				}
+			})
+		}
 	}
 	// ---- G3 re-layering that keeps the content: commit / merge / save between steps
 	if want("G3") {
@@ -761,9 +768,7 @@ func run(c *lib.Ctx) {
 		})
 		c.Set("G3_op_strings", len(strs))
 		rs := rangesFor(u, false)[:2]
-		if quick {
-			lines = lines[:7]
-		}
+		lines = lines[:7]
 		var stacks [][]string
 		cross(lines, 3, func(sel []string) { stacks = append(stacks, sel) })
 		c.Par(len(stacks), func(i int) {
@@ -775,17 +780,14 @@ func run(c *lib.Ctx) {
 	// ---- G4 the cursor continues on a different index state (any other stack)
 	if want("G4") {
 		u := u3
-		lines := reducedLines(2)
-		if quick {
-			lines = lines[:5]
-		}
+		lines := reducedLines(2)[:lib.Pick(c, 5, 7)]
 		strs := opStrings([]string{"N", "P", "X"}, lib.Pick(c, 4, 5), func(s []string) bool {
 			return contains(s, func(t string) bool { return t == "X" })
 		})
 		c.Set("G4_op_strings", len(strs))
 		var stacks [][]string
 		cross(lines, 3, func(sel []string) { stacks = append(stacks, sel) })
-		rs := rangesFor(u, false)[:lib.Pick(c, 1, 2)]
+		rs := rangesFor(u, false)[:1]
 		c.Par(len(stacks), func(i int) {
 			for j := range stacks {
 				if c.Expired() {
@@ -881,16 +883,44 @@ func run(c *lib.Ctx) {
 			})
 		})
 	}
+	// ---- G6b skip-scan over 3 prefix groups x 3 suffixes (a whole group between two others can be skipped)
+	if want("G6b") {
+		u := us3
+		lines := lib.Pick(c, []string{"...", "P.."}, []string{"...", "P..", ".a."})
+		pr := [][2]string{{ixkey.Min, ixkey.Max}, {ixkey.Min, "q"}, {"p", "p\x01"}, {"p", ixkey.Max}, {"\x01", "q"}}
+		sr := [][2]string{{ixkey.Min, ixkey.Max}, {ixkey.Min, "\x01"}, {"s", "s\x01"}, {"s", ixkey.Max}, {ixkey.Min, "u"},
+			{"t", "u\x01"}, {"s\x01", "u"}, {"\x01", "t"}}
+		var rs []rangeSpec
+		for _, p := range pr {
+			for _, s := range sr {
+				rs = append(rs, rangeSpec{Org: p[0], End: p[1], Skip: true, SOrg: s[0], SEnd: s[1]})
+			}
+		}
+		strs := append(opStrings(np, 4, nil), opStrings([]string{"N", "P", "R"}, 3, hasR)...)
+		var firsts [][]string
+		cross(lines, 4, func(sel []string) { firsts = append(firsts, sel) })
+		c.Par(len(firsts), func(i int) {
+			cross(lines, 5, func(rest []string) {
+				if c.Expired() {
+					return
+				}
+				sel := append(append([]string(nil), firsts[i]...), rest...)
+				for _, rg := range rs {
+					r.sweep(caseSpec{Group: "skip-scan-3-groups", Universe: u.Name, Lines: sel, WithMut: true, Rng: rg}, strs)
+				}
+			})
+		})
+	}
 	// ---- G7 SimpleIter over a stored btree only: every key subset, every range, skip-scan
 	if want("G7") {
 		strs := append(opStrings(np, 5, nil), opStrings([]string{"N", "P", "R"}, 4, hasR)...)
-		for _, u := range []*universe{u4, us} {
+		for _, u := range []*universe{u4, us, us3} {
 			n := len(u.keys)
 			var rs []rangeSpec
 			if u.pre == nil {
 				rs = rangesFor(u, true)
 			} else {
-				for _, p := range [][2]string{{ixkey.Min, ixkey.Max}, {ixkey.Min, "q"}, {"q", "q\x01"}} {
+				for _, p := range [][2]string{{ixkey.Min, ixkey.Max}, {ixkey.Min, "q"}, {"q", "q\x01"}, {"p", "p\x01"}} {
 					for _, s := range [][2]string{{ixkey.Min, ixkey.Max}, {ixkey.Min, "\x01"}, {"s", "s\x01"}, {"s", ixkey.Max}, {"\x01", "u"}} {
 						rs = append(rs, rangeSpec{Org: p[0], End: p[1], Skip: true, SOrg: s[0], SEnd: s[1]})
 					}
@@ -963,6 +993,11 @@ func run(c *lib.Ctx) {
 		c.Par(len(stacks)*len(rs), func(i int) {
 			r.sweep(caseSpec{Group: "long", Universe: u.Name, Lines: stacks[i/len(rs)], WithMut: true, Rng: rs[i%len(rs)]}, walks)
 		})
+	}
+	// ---- G9 (thorough) layering with 4 keys: every life line of every key
+	if !quick && want("G9") {
+		strs := append(opStrings(np, 4, nil), opStrings([]string{"N", "P", "R"}, 3, hasR)...)
+		layering(u4, strs, rangesFor(u4, false)[:2])
 	}
 	c.Sample(caseSpec{Group: "layering", Universe: "bdf", Lines: []string{"Pd.a", ".au.", "P..d"}, WithMut: true,
 		Rng: rangeSpec{Org: ixkey.Min, End: ixkey.Max}, Ops: []string{"N", "N", "P", "N", "N"}}.String())
